@@ -24,4 +24,13 @@ def run(spec):
 
 if __name__ == "__main__":
     spec = json.loads(sys.argv[1])
-    print("TRACE " + json.dumps(run(spec)))
+    if spec.get("whole_case"):
+        # a whole in-process twin case of C11 in a process of its own (state shared by all objects of a class - module-level
+        # defaults - is pristine when the first twin is created)
+        from props import c11
+        spec.pop("whole_case")
+        spec.pop("fresh_process", None)
+        r = c11.run_impl(spec)
+        print("TRACE " + json.dumps({"monitor": r["monitor"], "meta": r["meta"]}))
+    else:
+        print("TRACE " + json.dumps(run(spec)))
